@@ -94,6 +94,10 @@ pub fn run(a: &Args) -> Report {
         let mut log: Vec<String> = vec![];
         for (ci, c) in cmds.iter().enumerate() {
             let text = c.to_string();
+            if run::skip_run_on_large_db(&eg, &text) {
+                rep.count("runs_skipped_large_db", 1);
+                continue;
+            }
             let o = run::run(&mut eg, &text);
             log.push(format!("{text}   ; => {}", o.kind()));
             match &o {
